@@ -70,6 +70,7 @@ def run(ctx: Ctx):
     nrand = 300 if ctx.quick else 3000
     widths = [97, 98, 32, 9, 13, 233, 0x7ff, 0x800, 8364, 0xffff, 0x10000, 128512, 0x10ffff, 58, 59,
               0x301, 0x308, 0x20D7, 0x1D167, 0x200D, 0xFE0F, 0x2028, 0x2029, 0x85, 0x1C, 0x0B, 0x0C, 0xA0, 0x5B0, 0x64B]
+    todo = []
     for i in range(nrand):
         n = rnd.randint(50, 400 if not ctx.quick else 240)
         mode = rnd.random()
@@ -77,6 +78,19 @@ def run(ctx: Ctx):
             codes = [rnd.choice([97, 32, 9, 13, 58]) for _ in range(n)]
         else:
             codes = [rnd.choice(widths) for _ in range(n)]
+        todo.append(codes)
+    # physical lines that consist of blanks only: a tail of blanks that starts exactly at a fold point (+-2), and runs of
+    # blanks longer than a physical line
+    for n in list(range(71, 78)) + list(range(145, 152)) + [219, 220, 221, 222, 223]:
+        for tail in (" ", "  ", "\t", " \t ", "   \t"):
+            for wide in ("", "\u00e9", "\U0001F600"):
+                if (n + len(tail) + len(wide)) % (1 if not ctx.quick else 3) == 0:
+                    todo.append(L("X:" + wide + "a" * (n - 2 - len(wide.encode())) + tail))
+    for run in (74, 75, 80, 148, 160):
+        todo.append(L("X:a" + " " * run + "b"))
+        todo.append(L("X:a" + "\t" * run))
+        todo.append(L("X:" + "\u00e9" * 10 + " " * run + "\u00e9"))
+    for i, codes in enumerate(todo):
         line = S(codes)
         ctx.case(("line", line), True)
         out = Contentline(line).to_ical()
@@ -123,6 +137,26 @@ def run(ctx: Ctx):
                 ev.append({"k": "fold", "line": L(s), "limit": 75, "out": list(ln.to_ical())})
                 meta.append({"file": os.path.basename(f), "line": L(s)[:60]})
     ctx.notes.append(f"fixture lines validated by TLC: {nfix}")
+    # every way of constructing a content line: from bytes in a declared (non-default) encoding, strict or not; the
+    # serialised form is UTF-8 whatever the input encoding was
+    for text in ("SUMMARY:caf\u00e9 " + "\u00fc" * 50, "SUMMARY:plain ascii " + "x" * 70, "X-A;CN=\u00d8:" + "\u00e9" * 36 + "z" * 3, "SUMMARY:\u20ac" * 12):
+        for enc in ("utf-8", "latin-1", "cp1252", "utf-16", "utf-8-sig"):
+            for strict, as_str in ((False, False), (True, False), (False, True)):
+                try:
+                    raw = text if as_str else text.encode(enc)
+                    cl = Contentline(raw, strict=strict, encoding=enc)
+                except (UnicodeError, ValueError):
+                    continue
+                if str(cl) != text and str(cl).lstrip("\ufeff") != text:
+                    continue
+                ctx.case(("ctor", text[:12], enc, strict, as_str), True)
+                try:
+                    out = cl.to_ical()
+                except Exception as e:   # noqa: BLE001
+                    ctx.fail("P:C06:fold-total", {"line": L(str(cl))[:40], "encoding": enc, "strict": strict}, type(e).__name__, None)
+                    continue
+                ev.append({"k": "fold", "line": L(str(cl)), "limit": 75, "out": list(out)})
+                meta.append({"line": L(str(cl))[:40], "path": f"Contentline({'str' if as_str else 'bytes'}, strict={strict}, encoding={enc!r}).to_ical"})
     # BEGIN / END lines are content lines like any other: a long (vendor) component name is folded as well
     from icalendar import Component as _Cmp
     for n in (60, 68, 69, 70, 74, 80, 120, 200):
